@@ -27,3 +27,12 @@ func VerifNameRecords(src []byte) ([]VerifNameRecord, error) {
 	}
 	return out, nil
 }
+
+// VerifAATLookup6 builds a format 6 AAT lookup from (glyph, value) pairs (the record type is not exported).
+func VerifAATLookup6(pairs [][2]uint16) AATLoopkup6 {
+	out := AATLoopkup6{Records: make([]loopkupRecord6, len(pairs))}
+	for i, p := range pairs {
+		out.Records[i] = loopkupRecord6{Glyph: GlyphID(p[0]), Value: p[1]}
+	}
+	return out
+}
